@@ -4,6 +4,7 @@ CONSTANTS N = 3
           FailAt = 2
           Buffered = TRUE
           RestartsOnLateRequest = FALSE
+          Replenish = FALSE
           Grants = {1, 2, 99}
           Big = 99
           MaxCalls = 3
